@@ -7,7 +7,7 @@ import OrbProofs.C08Ring
 import Mathlib.Algebra.Order.Field.Rat
 import Mathlib.Tactic.NormNum
 
-namespace Orb.Clip
+namespace Orb.Clip.C08
 open Orb Orb.Core Generated.Params
 
 set_option linter.unusedSimpArgs false
@@ -68,4 +68,4 @@ theorem ring_vertices_on_input_false :
   have hb : BoxOK cxBox := by simp [BoxOK, cxBox]
   exact cx_not_on_input (h cxBox hb cxInp _ cx_ring ⟨0, 0⟩ (by simp))
 
-end Orb.Clip
+end Orb.Clip.C08
